@@ -25,7 +25,11 @@ def facts():
     lines = []
     for s in d["sites"]:
         if s["Field"] == "mu":
-            continue  # the Lock/Unlock calls themselves
+            # the Lock/Unlock calls themselves: only an Unlock of a lock NOT lexically held is a fact of its own
+            # (the table must fail on it: coq/model/Race.v unlock_failures)
+            if (s.get("Note") or "") in ("Unlock", "RUnlock") and not any(l["name"].endswith(".mu") for l in (s["Locks"] or [])):
+                lines.append("unbalanced-unlock %s" % s["Func"])
+            continue
         eff = ls(s["Locks"])
         e = ls(ent.get(s["Func"])) if s["SameRecv"] else ""
         lines.append("%s %s %s#%d lex=[%s] entry=[%s] %s conds=[%s] note=%s" % (
@@ -36,6 +40,9 @@ def facts():
     for f in d["funcs"]:
         if f["Entry"]:
             lines.append("entry %s [%s]" % (f["Name"], ls(f["Entry"])))
+        if f.get("EntryConds"):
+            # history facts that hold at every call of the context (propagated across calls, re-checked by Coq)
+            lines.append("entryfacts %s [%s]" % (f["Name"], " && ".join(f["EntryConds"])))
     return sorted(lines), out
 
 
